@@ -591,3 +591,101 @@ def policy_dispatch(ctx: Ctx) -> None:
     rs = [n for n in body_walk(f.node) if isinstance(n, ast.Raise)]
     okn = any(isinstance(r.exc, ast.Call) and any(isinstance(x, ast.Name) and x.id == prop for x in ast.walk(r.exc)) for r in rs)
     ctx.expect("R-TABLE", f, "the exception names the offending property", okn, "", "", node=f.node)
+
+
+def convert_sequence(ctx: Ctx) -> None:
+    """C16 / C17: what _convert does, in order, on every path - read off the path effects (helpers inlined, temporaries resolved):
+    a new result (deep copy of the caller's template, or a blank of the output type); the warp / negative-timing check on the source, before
+    anything is copied; the simfile's properties copied into the result; then, for every chart of the source in order, a new chart (template copy
+    or blank), its properties copied, appended to the result; the result returned."""
+    from ..flow import call_args as _ca
+    from .tables import closed, sums_of as tsums
+    p = ctx.p
+    cv, cp, cw = p.func(f"{CV}:_convert"), p.func(f"{CV}:_copy_properties"), p.func(f"{CV}:_convert_warps")
+    params = cv.param_names()
+    srcp = params[0]
+    sums = tsums(ctx, cv)
+    seen = set()
+    for s_ in sums:
+        role: Dict[str, str] = {q: q for q in params}
+        toks: List[str] = []
+        unknown: List[str] = []
+
+        def R(e: Optional[ast.AST]) -> str:
+            if e is None:
+                return "<absent>"
+            if isinstance(e, ast.Call) and ast.unparse(e.func) in ("cast", "typing.cast") and len(e.args) == 2:
+                return R(e.args[1])
+            if isinstance(e, ast.Name):
+                if e.id not in role:
+                    unknown.append(e.id)
+                return role.get(e.id, e.id)
+            return ast.unparse(e)
+
+        def fresh(v: ast.AST) -> Optional[str]:
+            if isinstance(v, ast.BoolOp) and isinstance(v.op, ast.Or) and len(v.values) == 2:
+                a, b = v.values
+                if isinstance(a, ast.Call) and ast.unparse(a.func) in ("deepcopy", "copy.deepcopy") and len(a.args) == 1 and isinstance(a.args[0], ast.Name) and a.args[0].id in params \
+                        and isinstance(b, ast.Call) and isinstance(b.func, ast.Attribute) and b.func.attr == "blank" and not b.args and isinstance(b.func.value, ast.Name) and b.func.value.id in params:
+                    return f"deepcopy({a.args[0].id}) or {b.func.value.id}.blank()"
+            return None
+
+        for i, e in enumerate(s_.effects):
+            v = e.value
+            depth = "  " * len(e.loops)
+            if e.kind == "for":
+                it = closed(s_, v, i)
+                if isinstance(e.target, ast.Name):
+                    role[e.target.id] = "CHART" if ast.unparse(it) == f"{srcp}.charts" else f"<element of {ast.unparse(it)}>"
+                toks.append(f"{depth}for CHART in {ast.unparse(it)}" if ast.unparse(it) == f"{srcp}.charts" else f"{depth}for ? in {ast.unparse(it)}")
+            elif e.kind == "bind" and isinstance(e.target, ast.Name):
+                if isinstance(v, ast.Name) and v.id in role:
+                    role[e.target.id] = role[v.id]
+                    continue
+                fr = fresh(v) if v is not None else None
+                if fr is not None:
+                    nm = "RESULT" if "simfile" in fr.split(")")[0] else "NEWCHART"
+                    role[e.target.id] = nm
+                    toks.append(f"{depth}{nm} := {fr}")
+                else:
+                    why = _not_fresh(ctx, cv, v) if v is not None else "no value"
+                    role[e.target.id] = f"<{ast.unparse(v) if v is not None else '?'}>"
+                    toks.append(f"{depth}{e.target.id} := {ast.unparse(v) if v is not None else '?'}" + (f"  [{why}]" if why else ""))
+            elif e.kind == "expr" and isinstance(v, ast.Call):
+                g = callee(ctx, cv, v)
+                if g is cw:
+                    am = _ca(v, cw)
+                    toks.append(f"{depth}check warps / negative timing of {R(am.get(cw.param_names()[0]))}")
+                elif g is cp:
+                    am = _ca(v, cp)
+                    toks.append(f"{depth}copy properties {R(am.get('source'))} -> {R(am.get('output'))} (table of {R(am.get('output_type'))}, policy {R(am.get('invalid_property_behaviors'))})")
+                elif isinstance(v.func, ast.Attribute) and v.func.attr == "append" and isinstance(v.func.value, ast.Attribute) and v.func.value.attr == "charts" and len(v.args) == 1:
+                    toks.append(f"{depth}{R(v.func.value.value)}.charts.append({R(v.args[0])})")
+                else:
+                    toks.append(f"{depth}other: {ast.unparse(v)}")
+            elif e.kind == "return":
+                toks.append(f"return {R(v)}")
+            elif e.kind in ("store", "aug", "delete", "raise", "yield"):
+                toks.append(f"{depth}other: {e.text}")
+        seen.add(tuple(toks))
+    head = ["RESULT := deepcopy(simfile_template) or output_simfile_type.blank()", f"check warps / negative timing of {srcp}",
+            f"copy properties {srcp} -> RESULT (table of output_simfile_type, policy invalid_property_behaviors)", f"for CHART in {srcp}.charts"]
+    body = ["  NEWCHART := deepcopy(chart_template) or output_chart_type.blank()", "  copy properties CHART -> NEWCHART (table of output_chart_type, policy invalid_property_behaviors)",
+            "  RESULT.charts.append(NEWCHART)"]
+    want = {tuple(head + body + ["return RESULT"]), tuple(head[:3] + ["return RESULT"]), tuple(head + ["return RESULT"])}
+    extra = seen - want
+    missing = tuple(head + body + ["return RESULT"]) not in seen
+    title = ("_convert: new result (template copy or blank), warp / negative-timing check of the source before any copy, simfile properties copied, then per source chart in order "
+             "a new chart (template copy or blank) filled and appended, result returned - on every path")
+    if not extra and not missing:
+        ctx.ok("R-ORDER", cv, title, f"{len(sums)} paths", node=cv.node)
+        return
+    # only a sequence made of recognised steps is judged; anything else is an unknown shape
+    flat = [t for seq in extra for t in seq]
+    if any(t.strip().startswith(("other:", "for ? in")) or ("<" in t and ">" in t and ":=" not in t) for t in flat):
+        bad_fresh = [t for t in flat if ":=" in t and "[" in t]
+        if bad_fresh:
+            ctx.bad("R-PURE", cv, "result objects are newly created (deep copy of the caller's template, or a blank)", f"{bad_fresh[0].strip()}", node=cv.node)
+            return
+        raise AnalysisError(f"{cv.fq}: the conversion sequence contains steps that are not recognised: {[t.strip() for t in flat if t.strip().startswith(('other:', 'for ? in')) or '<' in t][:3]}")
+    ctx.bad("R-ORDER", cv, title, f"a path does: {[t.strip() for t in (sorted(extra)[0] if extra else ())]}; expected: {[t.strip() for t in head + body + ['return RESULT']]}", node=cv.node)
